@@ -10,6 +10,7 @@ LEVEL = "proof"
 COQ_FILES = ["Tie/C06_defs.v", "Tie/C06_tie.v", "Props/C06_props.v"]
 PROPS_FILES = ["C06_props.v"]
 TRUSTED_BASE = [
+    "vlib/symex.py (symbolic execution of the translated Python subset on the ast: the translator reads value / outcome trees, so local names, intermediates, helpers and the form of branches do not matter; its assumptions - pure expressions, opaque calls, no aliasing writes, try handlers not modelled - are listed in DESIGN.md 12.7; fail-closed)",
     "py2gallina unit 'center' (CartesianVerticalMaskFunc.center_mask_func pad / slice arithmetic, centered_disk_mask centre and membership test, MagicMaskFunc cap on the number of ACS lines)",
     "the disc radius int(sqrt(rows * cols * scale / pi)) and round(width * fraction) are float expressions evaluated by the harness with the same formula (oracle inputs r and L of the theorems)",
     "that the sampling mask contains the ACS mask (shared seeded choice, OR with the ACS, monotone kernels) is decided by an oracle on all generators, not by a theorem",
